@@ -17,9 +17,10 @@ compressed_pubkey. [TABLE+DOM+TILE] WIF: for all 3 x 8 (network, type) pairs bas
 decoder's table and maps back to the same type and network class, no collisions; the encoder validates the key
 (privkey_int dominates) and emits version || key(32) || data, Base58Check; the decoder is checksum-verifying
 Base58Check + a raising table lookup with slices [0:1], [1:33], [33:]; CLI --addr-type choices = table keys.
-[TERM/TABLE] PEM: every hard-coded ASN.1 length in pem_encode_key equals the encoded length of its children (private
-key 32; public key 33 / 65), OIDs, the decoder's index paths land on the encoder's key and public-key nodes minus the
-unused-bits byte; the ASN.1 encoder emits tag,length,content; header/footer lines.
+[TERM/TABLE] PEM: pem_encode_key with the ASN.1 encoder inlined, on an arbitrary key of exactly 32 / 33 / 65 bytes, emits the
+RFC 5915 / RFC 5480 DER document byte for byte (tags, every length octet however it is obtained, OIDs, 00 || key bit string,
+embedded uncompressed public key), other lengths refused; OID tables both ways; the decoder's index paths land on the key and
+public-key nodes of those documents minus the unused-bits byte; header/footer lines.
 """
 NOT_DECIDED = "OpenSSL interoperability (external program); parse_oid's VLQ loop and encode_oid beyond the two OIDs used; base64 framing"
 ASSUMPTIONS = ["assert statements are live", "arguments have their annotated types"]
@@ -60,6 +61,16 @@ def parity_of(yterm):
             if k:
                 kinds.add("gated-" + k)
     return kinds
+
+
+def parity_of_cond(c):
+    """Is the condition a parity test of the bound element (x % 2, not x % 2, x & 1, ...)?"""
+    c = rules.unfz(c)
+    if isinstance(c, T) and c.op == "not":
+        c = c.args[0]
+    if isinstance(c, T) and c.op == "truth":
+        c = c.args[0]
+    return isinstance(c, T) and c.op == "mod" and c.args[1] == 2 and isinstance(c.args[0], T) and c.args[0].op == "bv"
 
 
 def check_point_decoder(ctx, oid="C14.1"):
@@ -156,6 +167,55 @@ def check_point_decoder(ctx, oid="C14.1"):
     esc = sorted({e.exc for e in sp.raises()})
     R.check(oid, "EXC", fp, "is_point catches the decoder's explicit errors", not esc,
             "is_point lets %s escape instead of returning False" % esc)
+    hr = rules.raising_handlers(fp.node)
+    R.check(oid, "EXC", fp, "is_point's exception handler cannot itself raise", not hr, "is_point can raise from inside its except branch: %s" % (hr[0][1] if hr else ""),
+            line=hr[0][0].lineno if hr else None)
+    # implicit errors (a failing table lookup, an index past the end) must be caught as well, or be impossible
+    caught = set()
+    for node in ast.walk(fp.node):
+        if isinstance(node, ast.ExceptHandler):
+            if node.type is None:
+                caught.add("BaseException")
+            else:
+                for t in (node.type.elts if isinstance(node.type, ast.Tuple) else [node.type]):
+                    caught.add(ast.unparse(t).split(".")[-1])
+    covers = {"KeyError": {"KeyError", "LookupError", "Exception", "BaseException"}, "IndexError": {"IndexError", "LookupError", "Exception", "BaseException"}}
+    loose = []
+    for h in sp.hazards:
+        exc, opnd, facts = h[0], h[1], list(h[4]) + list(h[3])
+        if caught & covers.get(exc, {"Exception", "BaseException"}):
+            continue
+        if exc == "IndexError" and isinstance(opnd, T) and opnd.op == "idx" and isinstance(opnd.args[1], int):
+            iv = ival.ivals(tm.length(rules.unfz(opnd.args[0])), facts)
+            need = opnd.args[1] + 1 if opnd.args[1] >= 0 else -opnd.args[1]
+            if iv and all(lo >= need for lo, hi in iv):
+                continue  # the length facts make the index valid
+            ln = tm.length(rules.unfz(opnd.args[0]))
+
+            def long_enough(f):
+                if isinstance(f, T) and f.op == "lor":
+                    return all(long_enough(d) for d in f.args)
+                if isinstance(f, T) and f.op == "cmp" and f.args[0] == "eq" and tm.veq(f.args[1], ln):
+                    return isinstance(f.args[2], int) and f.args[2] >= need
+                if isinstance(f, T) and f.op == "cmp" and f.args[0] == "in" and tm.veq(f.args[1], ln):
+                    c = rules.unfz(f.args[2])
+                    return isinstance(c, (tuple, list)) and bool(c) and all(isinstance(v, int) and v >= need for v in c)
+                return False
+            if any(long_enough(f) for f in facts):
+                continue  # len(x) == 33 or len(x) == 65
+            if isinstance(rules.unfz(opnd.args[0]), (bytes, tuple, list)):
+                continue
+            base = rules.unfz(opnd.args[0])
+            if opnd.args[1] == 0 and isinstance(base, T) and base.op == "map" and isinstance(rules.unfz(base.args[1]), T) and rules.unfz(base.args[1]).op == "app" and \
+                    rules.unfz(base.args[1]).args[0] == "bits.ecmath.y_from_x" and base.args[2] is not None and parity_of_cond(base.args[2]):
+                continue  # the two roots y and p - y have different parities (p is odd, y != 0): selecting by parity finds one
+        if exc == "KeyError" and isinstance(opnd, T) and opnd.op == "lookup":
+            if any(isinstance(f, T) and f.op == "cmp" and f.args[0] == "in" and tm.veq(f.args[1], opnd.args[1]) for f in facts):
+                continue
+        loose.append((exc, tm.show(opnd)[:80], h[5]))
+    R.check(oid, "EXC", fp, "no implicit KeyError / IndexError escapes is_point (caught: %s)" % sorted(caught), not loose,
+            "%s can escape is_point: `%s` in %s is neither caught nor excluded by a dominating check" % (loose[0] if loose else ("", "", "")),
+            example="a 33- or 65-byte string whose first byte is not 02 / 03 / 04")
     vals = {repr(e.value) for e in sp.returns()}
     R.check(oid, "DECISION-TABLE", fp, "is_point returns True/False", vals == {"True", "False"}, "is_point returns %s" % sorted(vals))
     tr = [e for e in sp.returns() if e.value is True]
@@ -471,3 +531,6 @@ def run(ctx):
     check_wif(ctx)
     check_pem(ctx)
     c03.check_privkey_int(ctx, "C14.4")
+    # WIF strings are Base58Check strings: the codec's alphabet enforcement, radix loops and checksum obligations (shared with C07)
+    from . import c07
+    c07.check_base58(ctx, lambda k: "C14.5")
